@@ -28,7 +28,7 @@ PLURALS = {"volt": "volts", "byte": "bytes", "candela": "candelas", "day": "days
            "dollar": "dollars", "euro": "euros", "foot": "feet", "gram": "grams", "hertz": "hertz", "hour": "hours",
            "inch": "inches", "lb": "lbs", "meter": "meters", "metre": "metres", "mile": "miles", "minute": "minutes",
            "month": "months", "point": "points", "pound": "pounds", "radian": "radians", "second": "seconds",
-           "tesla": "teslas", "year": "years"}
+           "tesla": "teslas", "year": "years", "uv": "uvs"}
 LITERALS = ["3", "-3", "3.5", ".5", "1e3", "1E-2", "+2", "0", "3E+2", "2e+1", "-1.5E-3"]
 ERR = 1
 
@@ -91,6 +91,10 @@ def unit_texts(orc, tag, all_mods, foreign):
             forms = []
             if sym:
                 forms = [pre + u.name, (pre + u.name).swapcase(), (pre + u.name).upper(), (pre + u.name).lower()]
+                # symbols have no plural: 'ms' on a length tag, 'kgs', 'hzzes' (the oracle decides; a plural that happens to
+                # be another declared unit keeps its reading)
+                if m is None or "SIUnit" in u.attrs:
+                    forms += [pre + u.name + "s", pre + u.name + "es"]
             else:
                 for b in orc.bases(u):
                     w = pre + b
@@ -244,6 +248,24 @@ def worker(rec, shard, nshards, setups, lits, seed):
                 rec.outcome("bare")
             # a word between the number and a declared unit: no reading (number, blank, unit) exists -> rejected
             plain_units = [u.name for u, uc in st.orc.units_of(tag) if "unitPrefix" not in u.attrs and " " not in u.name]
+            # a unit that is not of the prefix type does not stand before the number
+            for u0 in plain_units:
+                text = f"{tag.name}/{u0} {lits[0]}"
+                if st.orc.derivations(tag, lits[0]):       # the literal itself reads as a unit text (never, but be exact)
+                    continue
+                rec.n("evaluations")
+                rec.n("distinct_nontrivial")
+                try:
+                    codes = [i["code"] for i in st.validator.validate(HedString(text, st.schema), False)]
+                    val = HedTag(text, st.schema).value_as_default_unit()
+                except Exception as e:
+                    rec.violation("C11:validate-raises:" + type(e).__name__, schema=st.label, text=text, error=repr(e)[:200])
+                    continue
+                if "UNITS_INVALID" not in codes and "VALUE_INVALID" not in codes:
+                    rec.violation("C11:undeclared-unit-accepted:unit-before-number", schema=st.label, text=text, codes=codes)
+                if val is not None:
+                    rec.violation("C11:value-defined-for-unrecognised-unit", schema=st.label, text=text, value=val)
+                rec.outcome("unit-before-number")
             for u0 in plain_units[:2]:
                 for text in (f"{tag.name}/{lits[0]} x {u0}", f"{tag.name}/{lits[0]} {u0} {u0}",
                              f"{tag.name}/{lits[0]} zzq {u0}", f"{tag.name}/{lits[0]} 4 {u0}"):
